@@ -39,6 +39,12 @@ def run(pid, tier, args):
                 star = {"op": "grp", "mode": "once", "kid": {"op": "grp", "mode": "star", "kid": lit("(")}}
                 body = {"op": "seq", "kids": [{"op": "cap", "f": "T", "fk": kind, "kid": opt}, {"op": "cap", "f": "U", "fk": kind if kind != "int8" else "strings", "kid": star}, lit("b")]}
                 gs.append(P.mk_grammar("z%d" % j, [("P0", body, [P.F("T", kind), P.F("U", kind if kind != "int8" else "strings")])], ks=(1, -1)))
+            # a capture whose content is only a lookahead group (it matches without consuming anything)
+            for j, kind in enumerate(["token", "tokens", "string", "strings", "bool"]):
+                lk = {"op": "grp", "mode": "once", "kid": {"op": "grp", "mode": "opt", "kid": {"op": "look", "neg": False, "kid": lit("(")}}}
+                star = {"op": "grp", "mode": "once", "kid": {"op": "grp", "mode": "star", "kid": lit("(")}}
+                body = {"op": "seq", "kids": [{"op": "grp", "mode": "opt", "kid": lit("a")}, {"op": "cap", "f": "T", "fk": kind, "kid": lk}, {"op": "cap", "f": "U", "fk": "strings", "kid": star}, lit("b")]}
+                gs.append(P.mk_grammar("y%d" % j, [("P0", body, [P.F("T", kind), P.F("U", "strings")])], ks=(1, -1)))
             # grammars that match EOF explicitly (trailing elided text before EOF must not upset the progress check)
             for g0 in P.curated_core(rng, with_tokens=False):
                 if g0["id"] in ("e0", "e1"):
